@@ -46,7 +46,7 @@ const (
 	s2 = ":S2]]"
 )
 
-var c03Carriers = []string{"print", "letc", "param-content", "call-value", "call-all", "call-deep", "msg", "letc-reprint", "data-map", "after-call", "loop-around-call"}
+var c03Carriers = []string{"param-bare", "letc-bare", "print", "letc", "param-content", "call-value", "call-all", "call-deep", "msg", "letc-reprint", "data-map", "after-call", "loop-around-call"}
 var c03Modes = []string{"", "true", "false", "contextual", "deprecated-contextual"}
 
 func intE(i int) *ref.Expr    { return &ref.Expr{Op: "int", I: int64(i)} }
@@ -66,6 +66,8 @@ func buildC03(c C03Case) (pc gen.ProgCase, printerNs, printerTmpl string) {
 		Body: []ref.Cmd{txt("mid("), {K: "call", Call: &ref.Call{Target: "b.lib.show", Style: 1, Params: []ref.Param{{Key: "x", Value: varE("x")}}}}, txt(")")}}
 	echo := ref.Template{Name: "echo", Params: []ref.ParamDecl{{Name: "v"}}, Autoescape: c.CalleeMode,
 		Body: []ref.Cmd{txt("echo:"), {K: "print", Expr: varE("v"), Directives: []ref.Directive{{Name: "noAutoescape"}}}}}
+	frame := ref.Template{Name: "frame", Params: []ref.ParamDecl{{Name: "v"}}, Autoescape: c.CalleeMode,
+		Body: []ref.Cmd{txt(s1), {K: "print", Expr: varE("v"), Directives: []ref.Directive{{Name: "noAutoescape"}}}, txt(s2)}}
 	main := ref.Template{Name: "main", Params: []ref.ParamDecl{{Name: "x"}}, Autoescape: c.TmplMode, Header: c.Header}
 	framed := []ref.Cmd{txt(s1), under, txt(s2)}
 	printerNs, printerTmpl = c.NsMode, c.TmplMode
@@ -79,6 +81,11 @@ func buildC03(c C03Case) (pc gen.ProgCase, printerNs, printerTmpl string) {
 		main.Body = []ref.Cmd{{K: "letc", Var: "c", Body: []ref.Cmd{under}}, txt(s1), {K: "print", Expr: varE("c")}, txt(s2)}
 	case "param-content":
 		main.Body = []ref.Cmd{{K: "call", Call: &ref.Call{Target: "b.lib.echo", Style: 1, Params: []ref.Param{{Key: "v", IsBlock: true, Content: framed}}}}}
+	case "param-bare":
+		// the content block is the print command and nothing else; the callee frames and passes it on
+		main.Body = []ref.Cmd{{K: "call", Call: &ref.Call{Target: "b.lib.frame", Style: 1, Params: []ref.Param{{Key: "v", IsBlock: true, Content: []ref.Cmd{under}}}}}}
+	case "letc-bare":
+		main.Body = []ref.Cmd{{K: "letc", Var: "c", Body: []ref.Cmd{under}}, txt(s1), {K: "print", Expr: varE("c"), Directives: []ref.Directive{{Name: "noAutoescape"}}}, txt(s2)}
 	case "call-value":
 		main.Body = []ref.Cmd{txt("a"), {K: "call", Call: &ref.Call{Target: "b.lib.show", Style: 1, Params: []ref.Param{{Key: "x", Value: varE("x")}}}}}
 		printerNs, printerTmpl = c.CalleeNs, c.CalleeMode
@@ -109,7 +116,7 @@ func buildC03(c C03Case) (pc gen.ProgCase, printerNs, printerTmpl string) {
 	}
 	p := ref.Program{Files: []ref.File{
 		{Name: "a.soy", Namespace: "a", Autoescape: c.NsMode, Templates: []ref.Template{main, mid}},
-		{Name: "b.soy", Namespace: "b.lib", Autoescape: c.CalleeNs, Templates: []ref.Template{show, echo}},
+		{Name: "b.soy", Namespace: "b.lib", Autoescape: c.CalleeNs, Templates: []ref.Template{show, echo, frame}},
 	}}
 	if c.Split > 0 {
 		opposite := func(m string) string {
